@@ -9,6 +9,29 @@ ROOT = os.path.dirname(os.path.dirname(os.path.abspath(__file__)))
 sys.path.insert(0, ROOT)
 
 props = [json.loads(l) for l in open(os.path.join(ROOT, "properties.jsonl"))]
+GENERIC = ("Generated-input search (Hypothesis strategies built by construction, seeded from VERIF_SEED) against an explicit oracle, on both quoting backends; "
+           "a pass is evidence over the explored cases, not a proof of absence. ")
+LEVEL_TEXTS = {
+    "C01": GENERIC + "Validity predicate (RFC 3986 character classes per component, ASCII, bytes()) over every row of the entry-point registry; the single-character table (all ASCII + ~330 code points x contexts x entries) is exhaustive.",
+    "C02": GENERIC + "Token-level oracle: decoded bytes and the literal/escaped status sequence of reserved delimiters are compared between supplied and canonical text for every registry row; single characters and all 256 escape bytes are enumerated.",
+    "C03": GENERIC + "Re-parse fixed point (string and all components, twice) over URLs from generated programs (constructor/build + modifier chains).",
+    "C04": GENERIC + "The single-feature policy table (128 literals + 256 escapes x 6 positions x contexts) is enumerated completely; the canonical grammar is sampled.",
+    "C05": GENERIC + "Differential py == c over every quoter/unquoter instance of the library, exhaustive buffer-boundary set, ASan+UBSan image of the compiled quoter, URL-level OBSERVE differential, and a coverage-guided atheris campaign with the oracle inside the target.",
+    "C06": GENERIC + "Independent reference unquoter (UTF-8 scalar by scalar, verbatim fallback) against every decoded accessor; read-back identity for every quoting row of the registry.",
+    "C07": GENERIC + "Independent RFC 3986 Appendix B splitter + authority splitter as reference; re-composition with the licensed variations; atheris campaign on the splitter.",
+    "C08": "Stateful model-based testing: a Hypothesis rule-based state machine drives a cold and a warm copy of the package in lock-step; invariants (snapshot immutability, outcome equality) are checked after every step; whole sequences shrink and replay as data. Evidence over the explored histories only.",
+    "C09": GENERIC + "OBSERVE(u) == OBSERVE(twin) for pickle protocols 0-5/copy/deepcopy; the degenerate-authority grid is enumerated completely.",
+    "C10": GENERIC + "Five-tuple model key and equivalence/total-preorder axioms over near-colliding triples built by several construction routes.",
+    "C11": GENERIC + "Field-wise frame condition; the base matrix (20160 bases) x modifier/argument table is enumerated completely in both tiers.",
+    "C12": GENERIC + "List-of-pairs model of the multi-dict operations, exact exception classes for rejected values, argument immutability.",
+    "C13": GENERIC + "Algebraic laws between alternative spellings of path operations.",
+    "C14": GENERIC + "Independent implementation of RFC 3986 5.2.2-5.2.4 on the encoded components; the RFC 5.4 tables and a hand-classified shape product are enumerated.",
+    "C15": GENERIC + "Literal RFC 3986 5.2.4 as oracle; all segment sequences up to length 5 (quick) / 6 (thorough) over 13 spellings x every entry point are enumerated completely.",
+    "C16": GENERIC + "R-HOST oracle (lower-case / idna / ipaddress); the ASCII-in-host table and the NFKC-delimiter code-point set (computed from unicodedata) are enumerated completely; thorough walks every non-ASCII code point.",
+    "C17": GENERIC + "Default-port model; the scheme x port x host x userinfo x route matrix is enumerated completely.",
+    "C18": GENERIC + "Round-trip URL(human_repr()) == u plus a readability predicate evaluated with the reference splitter.",
+    "C19": "Exploration (exception-type whitelist over every registry row, encoded=True routes and every accessor/method of the results; atheris campaign) plus fault enumeration: every allocation-failure index of the sampled compiled-quoter/unquoter/URL calls is enumerated with _testcapi.set_nomemory in a child process, on the normal and the ASan+UBSan image.",
+}
 checks = []
 na = []
 for p in props:
@@ -31,7 +54,7 @@ for p in props:
         "engine": "vf",
         "level_claimed": {
             "category": level,
-            "text": getattr(mod, "LEVEL_TEXT", "Generated-input search (Hypothesis strategies, exhaustive enumeration of the finite sub-domains) against an explicit oracle; a pass is evidence over the explored cases, not a proof of absence."),
+            "text": getattr(mod, "LEVEL_TEXT", None) or LEVEL_TEXTS.get(pid, GENERIC),
             "design_ref": "DESIGN.md section 6, %s" % pid,
         },
         "level_note": getattr(mod, "LEVEL_NOTE", "Trusted base: CPython 3.12 (str, codecs, unicodedata, ipaddress, urllib.parse tables), idna, multidict, propcache, Hypothesis, and the reference models in vf/ref.py."),
